@@ -94,7 +94,7 @@ def oracle(ep, outs):
     sh = lbshadow.Shadow(ol[0])
     fails = []
     for line, o in zip(ol[1:], outs[1:]):
-        if o in ("hang", "bad-op"):
+        if o in ("hang", "bad-op") or o.startswith("resp aborted"):   # a panic in the balancer before any backend was contacted
             fails.append("%s -> %s" % (line, o))
             break
         if line.startswith("lb pickconc"):
